@@ -96,20 +96,20 @@ def run_inputs(exe, d, facts, vecs, timeout=20, leak=False):
     return obs
 
 
-def int_facts_for_token(tok, values, want_indirect=0):
+def int_facts_for_token(tok, values, want_indirect=0, attr='intvalue'):
     """Checkable integer facts of a dump token: list of (kind_index, K, description)."""
     out = []
     if not tok.values:
         return out
     for v in values.get(tok.values, []):
-        if 'intvalue' not in v:
+        if attr not in v:
             continue
         if v.get('path', '0') != '0':
             continue
         if int(v.get('indirect', '0')) != want_indirect:
             continue
         try:
-            k = int(v['intvalue'])
+            k = int(v[attr])
         except ValueError:
             continue
         if v.get('known') == 'true':
